@@ -1486,9 +1486,16 @@ class TLSRecordLayer(object):
         heartbeat_request = Heartbeat().create(
             HeartbeatMessageType.heartbeat_request, payload, padding_length)
 
-        for result in self._sendMsg(heartbeat_request,
-                                    randomizeFirstBlock=False):
-            yield result
+        try:
+            for result in self._sendMsg(heartbeat_request,
+                                        randomizeFirstBlock=False):
+                yield result
+        except GeneratorExit:
+            raise
+        except Exception:
+            # same as for a failed write of application data
+            self._shutdown(self.ignoreAbruptClose)
+            raise
 
     def send_heartbeat_request(self, payload, padding_length):
         """Synchronous version of write_heartbeat function.
